@@ -18,7 +18,9 @@ FUNCTIONS = ["FmtStr.splice", "FmtStr.append", "FmtStr.divides", "FmtStr.__len__
 BOUNDS = ("number of runs K of f fixed per instance (quick 0..4, thorough 0..6); `new` = plain str, or FmtStr with "
           "0/1/2 runs; run lengths n_i >= 0, start, end (0 <= start <= end) and the compared position p are unbounded "
           "mathematical integers; texts are any ESC/CSI-free strings (SegStr sources)")
-STUBS = ["SegStr text domain (characters abstract, lengths symbolic); position-function oracle"]
+STUBS = ["SegStr text domain (characters abstract, lengths symbolic); position-function oracle",
+         "native family: CrossHair's own symbolic str (characters symbolic, each text <= 2 (quick) / 3 (thorough) long) so that "
+         "code paths that compare characters are covered too"]
 
 ATTS = [{"fg": 31}, {"bold": True}, {"bg": 44}, {"underline": True}, {"fg": 32, "bold": True}, {"invert": True}]
 ATTS_SHARED = [{"fg": 31}, {"fg": 31}, {"bg": 44}, {"bg": 44}, {"fg": 31}, {"fg": 31}]
@@ -44,6 +46,10 @@ def instances(tier, seed):
                             "fn": "splice", "timeout": 90 if tier == "quick" else 300,
                             "params": {"K": K, "new": new, "end": endmode, "layout": layout, "sloc": sloc},
                         })
+    for K in (1, 2):
+        for new in ("str", "fmt1"):
+            out.append({"name": "native-K%d-%s" % (K, new), "fn": "splice_native", "timeout": 90 if tier == "quick" else 400,
+                        "params": {"K": K, "new": new, "L": 2 if tier == "quick" else 3}})
     return out
 
 
@@ -105,6 +111,7 @@ def splice(n0: int, n1: int, n2: int, n3: int, n4: int, n5: int, m0: int, m1: in
     else:
         r = f.append(new)
     newf = new if isinstance(new, FmtStr) else FmtStr(Chunk(new))   # a plain str shows unformatted
+    obs = H.observe(r)
     with NoTracing():
         K = P["K"]
         tot = z3.IntVal(0)
@@ -127,7 +134,7 @@ def splice(n0: int, n1: int, n2: int, n3: int, n4: int, n5: int, m0: int, m1: in
         from_new = flat_at(newf, Pz - S)
         from_f2 = flat_at(f, Pz - S - M + E)
         body = z3.If(Pz < S, same(res, from_f1), z3.If(Pz < S + M, same(res, from_new), same(res, from_f2)))
-        ok = z3.And(res[3] == explen, z3.Implies(z3.And(Pz >= 0, Pz < explen), body))
+        ok = z3.And(res[3] == explen, z3.Implies(z3.And(Pz >= 0, Pz < explen), body), H.views_term(obs, res, Pz, explen))
         unchanged = len(f.chunks) == K and all(a is b for a, b in zip(f.chunks, chunks_before))
         if not unchanged:
             return verdict(False)
@@ -135,11 +142,59 @@ def splice(n0: int, n1: int, n2: int, n3: int, n4: int, n5: int, m0: int, m1: in
     return verdict(sbool(ok), sbool(nontrivial))
 
 
+NAT_ATTS = [{"fg": 31}, {"bold": True}]
+
+
+def _nat_build(t0, t1, nw):
+    from curtsies.formatstring import FmtStr, Chunk
+    f = FmtStr(Chunk(t0, NAT_ATTS[0]), Chunk(t1, NAT_ATTS[1])) if P["K"] == 2 else FmtStr(Chunk(t0, NAT_ATTS[0]))
+    kind = P["new"]
+    new = nw if kind == "str" else FmtStr(Chunk(nw, NEW_ATTS[0]))
+    return f, new
+
+
+def splice_native(t0: str, t1: str, nw: str, start: int, end: int) -> bool:
+    """
+    pre: len(t0) <= P["L"] and len(t1) <= P["L"] and len(nw) <= P["L"] and (P["K"] == 2 or len(t1) == 0)
+    pre: 0 <= start <= end <= len(t0) + len(t1) + 2
+    pre: chr(27) not in t0 + t1 + nw and chr(0x9b) not in t0 + t1 + nw
+    post: _
+    """
+    from curtsies.formatstring import FmtStr, Chunk
+    f, new = _nat_build(t0, t1, nw)
+    before = H.sym_cells(f)
+    r = f.splice(new, start, end)
+    newc = H.sym_cells(new if isinstance(new, FmtStr) else FmtStr(Chunk(new)))
+    want = before[:start] + newc + before[end:]
+    got = H.sym_cells(r)
+    ok = H.cells_equal(got, want) and len(r) == len(want) and len(r.s) == len(want) and H.cells_equal(H.sym_cells(f), before)
+    return verdict(ok, len(nw) >= 1 and len(t0) >= 2 and 1 <= start < end)
+
+
 # ---------------------------------------------------------------- concrete twin (plain CPython)
+def _concrete_native(params, args):
+    from chx.common import cells, fmt_cells
+    from curtsies.formatstring import FmtStr
+    t0, t1, nw, start, end = args
+    f, new = _nat_build(t0, t1, nw)
+    before = cells(f)
+    try:
+        r = f.splice(new, start, end)
+    except Exception as ex:
+        return {"ok": False, "observed": "raised %r" % (ex,), "expected": "a FmtStr", "call": "%r.splice(%r, %r, %r)" % (f, new, start, end)}
+    want = before[:start] + cells(new) + before[end:]
+    got = cells(r)
+    ok = got == want and len(r) == len(want) and r.s == "".join(c for c, _ in want) and cells(f) == before
+    return {"ok": ok, "observed": fmt_cells(got) + " len=%d s=%r" % (len(r), r.s), "expected": fmt_cells(want) + " len=%d" % len(want),
+            "call": "%r.splice(%r, %r, %r)" % (f, new, start, end)}
+
+
 def concrete(fn, params, args):
     from chx.common import cells, fmt_cells
     P.clear()
     P.update(params)
+    if fn == "splice_native":
+        return _concrete_native(params, args)
     n = list(args[:6])
     m = list(args[6:8])
     start, end, p = args[8:11]
@@ -165,6 +220,6 @@ def concrete(fn, params, args):
     want = before[:s] + cells(new) + before[e:]
     got = cells(r)
     ok = got == want and cells(f) == before and all(a is b for a, b in zip(f.chunks, before_chunks)) \
-        and len(f.chunks) == len(before_chunks)
-    return {"ok": ok, "observed": fmt_cells(got), "expected": fmt_cells(want),
+        and len(f.chunks) == len(before_chunks) and len(r) == len(want) and r.s == "".join(c for c, _ in want)
+    return {"ok": ok, "observed": fmt_cells(got) + " len=%d s=%r" % (len(r), r.s), "expected": fmt_cells(want) + " len=%d" % len(want),
             "call": "%r .%s(%r, start=%r, end=%r)" % (f, "append" if mode == "append" else "splice", new, s, None if mode != "given" else e)}
